@@ -144,6 +144,63 @@ pub fn gen_config(rng: &mut Rng, o: &CfgOpts) -> Config {
     }
 }
 
+/// a restart with new options on the same model / transport / reset pin
+pub fn gen_reinit(rng: &mut Rng, cfg: &Config) -> Op {
+    let (fw, fh) = cfg.model.fb();
+    let giant = fw as u64 * fh as u64 > (1 << 21);
+    let allow_full = !giant && (fw as u32 * fh as u32 <= 160 * 170 || !cfg.transport.pin_level());
+    let (w, h, ox, oy) = if rng.chance(1, 4) { (cfg.w, cfg.h, cfg.ox, cfg.oy) } else { gen_window(rng, fw, fh, &CfgOpts::default(), allow_full) };
+    Op::Reinit { w, h, ox, oy, orient: gen_orient(rng), bgr: rng.coin(), invert: rng.coin(), refresh: rng.below(4) as u8 }
+}
+
+/// Is the program a legal use of the API for this property's domain? (the minimiser must not
+/// turn an in-bounds program into one that passes out-of-range values to `set_pixels`, which
+/// the crate documents as undefined)
+pub fn program_valid(prop: &str, cfg0: &Config, program: &[Op]) -> bool {
+    let mut cfg = cfg0.clone();
+    let strict_inbounds = matches!(prop, "C01" | "C03" | "C20" | "C13" | "C16" | "C12" | "C05");
+    for op in program {
+        let (lw, lh) = cfg.logical_size();
+        match op {
+            Op::SetPixel { x, y, .. } => {
+                if *x as u32 >= lw || *y as u32 >= lh {
+                    return false;
+                }
+            }
+            Op::SetPixels { sx, sy, ex, ey, colors } => {
+                if sx > ex || sy > ey || *ex as u32 >= lw || *ey as u32 >= lh {
+                    return false;
+                }
+                if strict_inbounds && colors.len() > (*ex as u64 - *sx as u64 + 1) * (*ey as u64 - *sy as u64 + 1) {
+                    return false;
+                }
+            }
+            Op::DrawIter { pixels } if strict_inbounds => {
+                if pixels.iter().any(|&(x, y, _)| x < 0 || y < 0 || x as u32 >= lw || y as u32 >= lh) {
+                    return false;
+                }
+            }
+            Op::FillContiguous { rect, .. } | Op::FillSolid { rect, .. } => {
+                if !valid_eg_rect(rect) {
+                    return false;
+                }
+                if prop == "C01" && (rect.x < 0 || rect.y < 0 || rect.x as i64 + rect.w as i64 > lw as i64 || rect.y as i64 + rect.h as i64 > lh as i64 || rect.w == 0 || rect.h == 0) {
+                    return false;
+                }
+            }
+            Op::SetOrientation { o } => cfg.orient = *o,
+            Op::Reinit { .. } => {
+                cfg = cfg.after_reinit(op);
+                if !cfg.fits() {
+                    return false;
+                }
+            }
+            _ => {}
+        }
+    }
+    true
+}
+
 /// pixel budget of one call, by transport cost
 pub fn px_budget(t: Transport) -> u64 {
     match t {
@@ -154,10 +211,17 @@ pub fn px_budget(t: Transport) -> u64 {
 }
 
 pub fn gen_colour(rng: &mut Rng) -> u32 {
-    match rng.below(8) {
+    match rng.below(12) {
         0 => 0,
         1 => 0xFFFF_FFFF,
         2 => 0x0101_0101 * rng.below(256) as u32, // equal bytes: parallel fast path
+        3 => {
+            // first and last bus byte equal, middle different (r == b != g for Rgb666)
+            let a = rng.below(64) as u32;
+            let b = rng.below(64) as u32;
+            a << 12 | b << 6 | a
+        }
+        4..=7 => rng.palette[rng.below(3) as usize],
         _ => rng.next_u64() as u32,
     }
 }
@@ -410,6 +474,11 @@ fn valid_eg_rect(r: &Rect) -> bool {
 pub fn gen_rect_inside(rng: &mut Rng, lw: u32, lh: u32, max_visible: u64) -> Rect {
     let mut w = 1 + rng.below(lw as u64) as u32;
     let mut h = 1 + rng.below(lh as u64) as u32;
+    if rng.chance(1, 4) {
+        // tiny: a handful of pixels in one row (chunk sizes below any buffer capacity)
+        w = (1 + rng.below(8) as u32).min(lw);
+        h = if rng.chance(3, 4) { 1 } else { (1 + rng.below(3) as u32).min(lh) };
+    }
     if rng.chance(1, 5) {
         w = lw;
     }
@@ -505,6 +574,15 @@ pub fn gen_colors_for(rng: &mut Rng, rect: &Rect, lw: u32, lh: u32, exact_or_les
         let dx = (-(rect.x as i64)).max(0) as u64;
         dy * rect.w as u64 + dx
     };
+    if area >= 1 && area <= 96 && rng.chance(1, 3) {
+        // explicit list drawn from the run's palette (value reuse across calls)
+        let len = match rng.below(4) {
+            0 if !exact_or_less => area + 1 + rng.below(4),
+            1 => rng.below(area + 1),
+            _ => area,
+        };
+        return Colors::List((0..len).map(|_| if rng.chance(3, 4) { rng.palette[rng.below(3) as usize] } else { gen_colour(rng) }).collect());
+    }
     let choice = if exact_or_less { rng.below(5) } else { rng.below(10) };
     let len = match choice {
         0 | 1 | 2 => area,
